@@ -185,7 +185,56 @@ var rR3 = RuleRef{Name: "R3", Doc: "single-result type assertions cannot fail: o
 					_, isEx := v.(*ssa.Extract)
 					return isPhi || isEx || v == ta.X
 				})
+				// the map is a parameter of a (generic) getter: the map fields handed in at its call sites
+				var viaParam []string
+				if field == "" {
+					backslice(ta.X, func(v ssa.Value) bool {
+						if call, ok := v.(*ssa.Call); ok {
+							if cf := callee(call); cf != nil && isMethodOf(cf, c.Facts.CMap, "Get") {
+								if prm, ok := call.Call.Args[0].(*ssa.Parameter); ok {
+									pi := -1
+									for i, p := range fn.Params {
+										if p == prm {
+											pi = i
+										}
+									}
+									sites := 0
+									for _, g := range c.P.allFuncs(firstPartyPkgs...) {
+										for _, b2 := range g.Blocks {
+											for _, in2 := range b2.Instrs {
+												if c2, ok := in2.(ssa.CallInstruction); ok && callee(c2) == fn && pi >= 0 && pi < len(c2.Common().Args) {
+													sites++
+													if f := mapField(c2.Common().Args[pi]); f != "" {
+														viaParam = append(viaParam, f)
+													} else {
+														viaParam = append(viaParam, "?")
+													}
+												}
+											}
+										}
+									}
+									if sites == 0 {
+										viaParam = append(viaParam, "?")
+									}
+								}
+							}
+							return false
+						}
+						_, isPhi := v.(*ssa.Phi)
+						_, isEx := v.(*ssa.Extract)
+						return isPhi || isEx || v == ta.X
+					})
+				}
 				switch {
+				case len(viaParam) > 0:
+					good = true
+					for _, f := range viaParam {
+						ts := stored[f]
+						if !(len(ts) == 1 && ts[ta.AssertedType.String()]) {
+							good = false
+							why = "the map handed to this getter at some call site (" + f + ") does not hold only " + ta.AssertedType.String()
+						}
+					}
 				case field != "":
 					ts := stored[field]
 					if len(ts) == 1 && ts[ta.AssertedType.String()] {
